@@ -109,3 +109,98 @@ def run(db, cx):
               ok, "secondaries = {data, 1 + outgoing.count} between sampling and attachment",
               short(f.loc),
               why="otherwise unfilled (default) secondaries from the over-allocation are emitted")
+
+    threshold_pairing(db, cx)
+
+
+def threshold_pairing(db, cx):
+    """C04.5: a secondary that is created only above a production threshold is tested against the
+    threshold of *its own* particle type.  Cut members are identified by their constructor
+    initialiser `cutoffs.energy(ids.P)`; every write `secondary.particle_id = ids.P'` that is
+    guarded by a comparison with a cut member (directly or through a local chosen by `c ? a : b`)
+    must pair P' with the cut of P'."""
+    import re
+    PARTS = ("electron", "gamma", "positron")
+    norm = lambda t: (t or "").replace(" ", "").replace("this->", "")
+
+    def part_of(text):
+        m = re.search(r"\.(electron|gamma|positron)$", norm(text))
+        return m.group(1) if m else None
+
+    def arms(text):
+        m = re.match(r"^(.*?)\?(.*?):(.*)$", norm(text))
+        return (m.group(1), m.group(2), m.group(3)) if m else None
+
+    n = 0
+    classes = {}
+    for f in db.all_funcs():
+        if not f.r.get("ctor") or "/em/" not in f.loc:
+            continue
+        for (_b, _i, ev) in f.events("write"):
+            if ev.get("kind") != "ctorinit":
+                continue
+            m0 = re.search(r"\.energy\(.*?(electron|gamma|positron)(_id_?)?\)$", norm(ev.get("rhs")))
+            if not m0 or "cutoff" not in norm(ev.get("rhs")).lower():
+                continue
+            ps = [m0.group(1)]
+            leaf = path_leaf(ev.get("path"))
+            if leaf and len(set(ps)) == 1:
+                classes.setdefault(f.r.get("cls") or leaf.rsplit("::", 1)[0], {})[leaf.split("::")[-1]] = ps[0]
+    cx.count("classes with per-particle cut members", len(classes))
+    for cls, cuts in sorted(classes.items()):
+        for name in db.find("^" + re.escape(cls) + r"::operator\(\)$"):
+            for f in db.get(name):
+                for (b, i, ev) in f.events("write"):
+                    if path_leaf(ev.get("path")) != C + "Secondary::particle_id":
+                        continue
+                    rhs = ev.get("rhs", "")
+                    pa = arms(rhs)
+                    p_single = part_of(rhs) if not pa else None
+                    for br in f.branch_blocks(lambda c, _b: c.get("op") in (">=", ">", "<", "<=")):
+                        c = f.blocks[br]["cond"]
+                        if not (f.guarded_by_edge((b, i), br, 0) or f.guarded_by_edge((b, i), br, 1)):
+                            continue
+                        mem = [x.split("::")[-1] for x in c.get("refs", []) if x.startswith("F:" + cls + "::")
+                               and x.split("::")[-1] in cuts]
+                        cut_arms = None
+                        if not mem:
+                            for v in local_refs(c.get("refs", [])):
+                                for (_b2, _i2, d) in f.reaching_defs(v, (br, 10 ** 6)):
+                                    m2 = [x.split("::")[-1] for x in d.get("refs", [])
+                                          if x.startswith("F:" + cls + "::") and x.split("::")[-1] in cuts]
+                                    if m2:
+                                        cut_arms = arms(d.get("rhs", "")) or ("", d.get("rhs", ""), d.get("rhs", ""))
+                                        mem = m2
+                        if not mem:
+                            continue
+                        n += 1
+                        cutname = lambda t: next((k for k in cuts if norm(t).endswith(k)), None)
+                        if cut_arms is None:
+                            cm = {None: cuts.get(mem[0])} if len(set(mem)) == 1 else {}
+                        else:
+                            cm = {"cond": cut_arms[0], True: cuts.get(cutname(cut_arms[1])),
+                                  False: cuts.get(cutname(cut_arms[2]))}
+                        if pa:
+                            pm = {"cond": pa[0], True: part_of(pa[1]), False: part_of(pa[2])}
+                        else:
+                            pm = {None: p_single}
+                        if None in cm and None in pm:
+                            ok = cm[None] is not None and cm[None] == pm[None]
+                        elif "cond" in cm and "cond" in pm and cm["cond"] == pm["cond"]:
+                            ok = cm[True] == pm[True] and cm[False] == pm[False] and cm[True] is not None
+                        elif "cond" in cm and None in pm:
+                            ok = cm[True] == cm[False] == pm[None]
+                        elif None in cm and "cond" in pm:
+                            ok = pm[True] == pm[False] == cm[None]
+                        else:
+                            ok = False
+                        cx.ob("C04.5-threshold-pairing", "%s: secondary `%s` is tested against the cut of its "
+                              "own particle type [@%s]" % (cls.split("::")[-1], norm(rhs)[-40:],
+                                                            short(ev["loc"]).split(":")[-1]), ok,
+                              "particle: %s; threshold in `%s`: %s" % (
+                                  {k: v for k, v in pm.items()}, c.get("t"), {k: v for k, v in cm.items()}),
+                              short(ev["loc"]),
+                              why="a secondary tested against another particle's production cut is "
+                                  "emitted below its own threshold (or suppressed above it), and the "
+                                  "storage bound computed from the right cuts no longer covers it")
+    cx.floor("cut-guarded secondary creations", n, 1)
